@@ -183,9 +183,9 @@ def r2(model, rep, r):
     for mod, qn, fn in model.all_functions():
         for n in ast.walk(fn):
             if isinstance(n, ast.Attribute) and n.attr in ("predecessor_indices", "predecessors", "in_edges"):
-                users.append((mod, qn, n.lineno))
-    for mod, qn, line in users:
-        if not (mod == "system" and qn == "System._get_parents"):
+                users.append((mod, qn, n.lineno, fn))
+    for mod, qn, line, ufn in users:
+        if not (mod == "system" and qn == "System._get_parents") and not (mod == "system" and sysrules.reads_back_in_order(model, ufn, reg)):
             okc = False
             rep.violation("R2", "%s.%s" % (mod, qn), "%s:%d" % (model.rel(mod), line), "the unordered predecessor view of the graph is consumed outside _get_parents", "predecessor consumer " + qn)
     rep.instance("R2", "unordered predecessor view consumed only by _get_parents", "%s:%d" % (rel, gp.lineno), okc, "%d use(s)" % len(users))
